@@ -1,7 +1,7 @@
 (* Properties/C02.v — Parallel PBF decoding preserves file order under every schedule.
    Statements only; proofs are in Pipeline/Proofs*.v over the LTS of Pipeline/Model.v. *)
 From Coq Require Import ZArith List Bool Arith Lia.
-From Verif Require Import Pipeline.Model Pipeline.Exec Pipeline.ProofsBasic Pipeline.ProofsChain Pipeline.ProofsOrder Pipeline.Witness.
+From Verif Require Import Pipeline.Model Pipeline.Exec Pipeline.ProofsBasic Pipeline.ProofsChain Pipeline.ProofsOrder Pipeline.ProofsLive Pipeline.ProofsErr Pipeline.Theorems Pipeline.Witness.
 Import ListNotations.
 
 (* 1. THE ORDER THEOREM.  For every decoder count n >= 1, every input (blocks, undecodable blocks,
@@ -26,6 +26,25 @@ Theorem C02_scans_are_prefix : forall c sched,
 Proof. exact scans_are_prefix. Qed.
 Print Assumptions C02_scans_are_prefix.
 
+(* 2. NO DEADLOCK.  In every reachable state in which the scanning goroutine is inside a call
+   (blocked in Next during Scan, or in the wg.Wait of Close), some goroutine — reader, a worker,
+   the serializer or the consumer itself — has an enabled step: nobody waits for the environment.
+   All n >= 1, including n > 10 where the worker channels are unbuffered (rendezvous). *)
+Theorem C02_no_deadlock : forall c s, wf_cfg c = true -> current c = true -> reach c s ->
+  c_pc s <> CIdle -> exists l s' o, is_progress l = true /\ step c l s = Some (s', o).
+Proof. exact T_no_deadlock. Qed.
+Print Assumptions C02_no_deadlock.
+
+(* 3. COMPLETES.  In a run without Close and without cancellation of the caller's context (header
+   readable), a scan can only end with the file's own final error, after every element before it
+   was delivered; for a file that ends with EOF: the full sequence, then EOF.  Together with 1 and
+   2: every such run delivers a growing prefix, never gets stuck, and can only stop complete. *)
+Theorem C02_completes : forall c s, wf_cfg c = true -> current c = true -> reach c s ->
+  c_hdr_err c = 0%Z -> closed s = false -> pcancelled s = false -> s_err s <> 0%Z ->
+  delivered s = expected (c_inp c) /\ final_err (c_inp c) = s_err s.
+Proof. exact T_completes. Qed.
+Print Assumptions C02_completes.
+
 (* specification side: the objects of the first m file blocks, all but the last of them free of
    errors, are a prefix of the file's elements (for every well-formed input and every m) *)
 Theorem C02_blocks_prefix : forall inp m, wf_input inp = true ->
@@ -47,6 +66,12 @@ Print Assumptions C02_overtake_refuted.
 Example C02_no_overtake_now : delivered (fst over_run_now) = [1%Z].
 Proof. vm_compute. reflexivity. Qed.
 
-(* non-vacuity: a complete fair run with 3 workers delivers the file in order *)
+(* non-vacuity of the hypotheses: a well-formed current configuration with 3 workers, 12 workers
+   (unbuffered channels) ... *)
+Example C02_hyps_sat : wf_cfg (cfg_now 3 in7) = true /\ current (cfg_now 3 in7) = true /\
+                       wf_cfg (cfg_now 12 in7) = true /\ cap (cfg_now 12 in7) = 0.
+Proof. vm_compute. repeat split. Qed.
+
+(* ... and a complete fair run with 3 workers delivers the file in order *)
 Example C02_full_run : delivered (fst full_run) = expected in7 /\ snd full_run = true /\ err_value (fst full_run) = 0%Z.
 Proof. vm_compute. repeat split. Qed.
